@@ -611,10 +611,10 @@ def run(ctx):
     done = 0
     t_run = time.time()
     # a loaded machine: fewer cases rather than a late verdict — but never fewer than 30 generated graphs (the floors)
-    soft = (lambda: done >= 30 and time.time() - t_run > 70) if not big else (lambda: False)
+    soft = (lambda: done >= 30 and time.time() - t_run > 55) if not big else (lambda: False)
     while done < n and not ctx.out_of_time() and not soft():
         k = min(15, n - done)
-        evaluate(ctx, [gen_graph(ctx.rng, wide=ctx.tier == "thorough") for _ in range(k)], per_graph=14)
+        evaluate(ctx, [gen_graph(ctx.rng, wide=ctx.tier == "thorough") for _ in range(k)], per_graph=12)
         done += k
     hg = [gen_graph(ctx.rng) for _ in range(24)] + [c13.enum_graph(i, 2) for i in ids + [(ids[0] + 11) % total, (ids[0] + 23) % total, (ids[0] + 57) % total]]
     evaluate_histories(ctx, hg)
